@@ -448,35 +448,53 @@ def walk_stage(rep, work, name, module, constants, systems, kind, opts="", invar
     rep.add_tlc(name + "/gen", res)
     for m in summ.get("setup_mismatches") or []:
         rep.violations.append(("", "%s: setup step %d mismatched: %s" % (m["system"], m["at"], m["msgs"][:2])))
-    # validate, peeling rejected walks off so that the rest is still checked
+    # validate, peeling rejected walks off so that the rest is still checked; large traces are validated
+    # in pieces of at most ~150 000 events (whole walks), one TLC run per piece
     rejected = []
-    cur = trace
     nwalks = summ["walks"]
     vstates = vtrans = 0
-    for attempt in range(12):
-        if os.path.getsize(cur) == 0:
-            break
-        ok, at, vres = validate_trace(work, "TraceWalk", cur, timeout=timeout)
-        vstates += vres.distinct
-        vtrans += vres.generated
-        if ok:
-            break
-        walks = split_walks(cur)
-        badw = None
-        for first, lines in walks:
-            if first <= at < first + len(lines):
-                badw = (first, lines)
-        if badw is None:
-            badw = walks[-1]
-        rejected.append((badw[1], at - badw[0]))
-        nxt = work.path("walk.%s.%d.ndjson" % (tag, attempt))
-        with open(nxt, "w") as f:
+    pieces = [trace]
+    if summ["events"] > 150000:
+        pieces = []
+        out_f, n, idx = None, 0, 0
+        with open(trace) as f:
+            for line in f:
+                if line.startswith('{"t":"start"') and (out_f is None or n > 150000):
+                    if out_f:
+                        out_f.close()
+                    idx += 1
+                    pieces.append(work.path("walk.%s.piece%d.ndjson" % (tag, idx)))
+                    out_f, n = open(pieces[-1], "w"), 0
+                out_f.write(line)
+                n += 1
+        if out_f:
+            out_f.close()
+    for piece in pieces:
+        cur = piece
+        for attempt in range(12):
+            if os.path.getsize(cur) == 0:
+                break
+            ok, at, vres = validate_trace(work, "TraceWalk", cur, timeout=timeout, heap="8g")
+            vstates += vres.distinct
+            vtrans += vres.generated
+            if ok:
+                break
+            walks = split_walks(cur)
+            badw = None
             for first, lines in walks:
-                if first != badw[0]:
-                    f.writelines(lines)
-        cur = nxt
-    else:
-        rep.extra.setdefault("notes", []).append("stage %s: more than 12 rejected walks, validation stopped" % name)
+                if first <= at < first + len(lines):
+                    badw = (first, lines)
+            if badw is None:
+                badw = walks[-1]
+            rejected.append((badw[1], at - badw[0]))
+            nxt = work.path("walk.%s.%d.%d.ndjson" % (tag, pieces.index(piece), attempt))
+            with open(nxt, "w") as f:
+                for first, lines in walks:
+                    if first != badw[0]:
+                        f.writelines(lines)
+            cur = nxt
+        else:
+            rep.extra.setdefault("notes", []).append("stage %s: more than 12 rejected walks in one piece, validation stopped" % name)
     vr = TLCResult()
     vr.distinct, vr.generated = vstates, vtrans
     rep.add_tlc(name + "/validate", vr)
